@@ -21,6 +21,7 @@ def build(seed, prop, idx, o=None):
     feed_o["threshold"] = thr
     feed, status = gen.make_feed(rng, el, feed_o)
     policy = o.get("policy", gen.choice(rng, ["drop", "drop", "zero"]))
+    null_cells = bool(o.get("null_cells", False))
     must = list(o.get("must_aggregates", []))
     aggregates = o.get("aggregates") or gen.random_aggregates(rng, el, must=must)
     alphas = o.get("alphas") or gen.random_alphas(rng)
@@ -69,6 +70,16 @@ def build(seed, prop, idx, o=None):
             mp["lambda_"] = float(gen.choice(rng, [0.5, 5.0]))
         if rng.random() < 0.35:
             mp["seed"] = int(gen.choice(rng, [0, 0, 1, 7, 4191]))
+    if null_cells:
+        # a unit whose row has arrived but with one requested count still missing (null cell)
+        cols = ["results_dem", "results_gop"] if estimator == "bootstrap" else [f"results_{e}" for e in estimands]
+        rows_ = [j for j in range(len(feed)) if status.get(feed.loc[j, "geographic_unit_fips"]) in ("full", "partial")]
+        for c in set(cols) | {"results_turnout", "results_dem", "results_gop"}:
+            if c in feed.columns:
+                feed[c] = feed[c].astype(float)
+        for j in [rows_[k_] for k_ in rng.permutation(len(rows_))[: int(rng.integers(1, 3))]] if rows_ else []:
+            feed.loc[j, cols[int(rng.integers(0, len(cols)))]] = float("nan")
+            status[feed.loc[j, "geographic_unit_fips"]] = status[feed.loc[j, "geographic_unit_fips"]] + "+null-cell"
     # eligibility parameters
     if rng.random() < 0.3:
         ids = list(el.pre.geographic_unit_fips)
@@ -101,3 +112,23 @@ def signature(el, status, call):
         len(call["estimands"]), call["percent_reporting_threshold"], el.meta["n_states"] > 1,
         "county_classification" in call["aggregates"],
     ]
+
+
+def poll_sequence(seed, prop, idx, el, feed, status, k):
+    """k successive feeds of one election night on the way to `feed` (the last one): units start to report in a
+    random order; a unit that has not started yet is listed with zero votes and 0 percent."""
+    rng = gen.rng_for(seed, prop, idx, salt=77)
+    started = [f for f, s_ in status.items() if s_.split("+")[0] in ("full", "partial", "unexpected")]
+    order = [started[j] for j in rng.permutation(len(started))]
+    feeds = []
+    for t in range(1, k + 1):
+        keep = set(order[: int(round(len(order) * t / k))])
+        ft = feed.copy(deep=True)
+        if t < k:
+            m_ = ~ft.geographic_unit_fips.isin(keep) & ft.geographic_unit_fips.isin(set(started))
+            for c in ft.columns:
+                if c.startswith("results_"):
+                    ft.loc[m_, c] = 0
+            ft.loc[m_, "percent_expected_vote"] = 0.0
+        feeds.append(ft)
+    return feeds
